@@ -15,6 +15,8 @@ RULE = (
     "(ignore_extensions on/off, additional_types supplied or not) and compared with the canonical "
     "description of the IR (types, members in document order, wrappers, defaults coerced by R-COERCE, "
     "descriptions, deprecations, directives, roots); the closure invariant is asserted on the result; "
+    "a second document (a new type, an extension of that new type and an extension of the query root, "
+    "in any order) is applied with extend_schema and compared likewise; "
     "35 labelled invalid documents must be rejected with SDLError / ExtensionError / SchemaError / "
     "SchemaValidationError / GraphQLSyntaxError and nothing else. Non-trivial = distinct document "
     "with >= 1 extension, recursion, default or description, or a labelled invalid one."
